@@ -3,7 +3,8 @@
 REPO ?= /repo
 V := /verif
 BUILD ?= asan
-B := $(V)/build/$(BUILD)
+BUILDROOT ?= $(V)/build
+B := $(BUILDROOT)/$(BUILD)
 SRCS := $(shell find $(REPO)/src -name '*.cpp' | sort)
 OBJS := $(patsubst $(REPO)/src/%.cpp,$(B)/obj/%.o,$(SRCS))
 INC := -I$(V)/sim/cfg -I$(REPO)/include -I$(V)/sim -I$(V)/engines
@@ -59,6 +60,6 @@ setup:
 	if [ -f $(V)/engines/thr.cpp ]; then $(MAKE) -C $(V) BUILD=sancov lib -j16 && $(MAKE) -C $(V) BUILD=sancov engine-thr; fi
 
 clean:
-	rm -rf $(V)/build
+	rm -rf $(BUILDROOT)
 
 -include $(OBJS:.o=.d)
